@@ -487,7 +487,8 @@ def s7(prog, ctx, fns):
             elif tgt == a0:
                 ctx.ok("S7", inst, c.where, "assigned back to the same lvalue")
             else:
-                back = [st for lhs, rhs, st, kind in query.stores(f) if render(lhs) == a0 and rhs is not None and render(rhs) == tgt and f.cfg.node_dominates(c, st)]
+                back = [st for lhs, rhs, st, kind in query.stores(f) if render(lhs) == a0 and rhs is not None and (
+                    render(rhs) == tgt or (rhs.strip().k == "DeclRefExpr" and rhs.strip().j.get("name") == tgt)) and f.cfg.node_dominates(c, st)]
                 if back:
                     ctx.ok("S7", inst, c.where, "%s = %s after the NULL test" % (a0, tgt))
                 else:
@@ -582,6 +583,10 @@ def s8(prog, ctx, fns, exc):
                 continue
             if w.k == "ForStmt":
                 sh = loops.for_shape(w)
+                if not sh.ok:
+                    sh2 = loops.index_shape(w)      # further conjuncts in the condition can only end the loop earlier
+                    if sh2.ok:
+                        sh = sh2
                 if sh.ok:
                     # bound must not be moved away inside the body
                     bnames = set(re.findall(r"[A-Za-z_]\w*(?:->\w+)*", sh.bound or ""))
